@@ -28,4 +28,13 @@ PROPS_ADD = {
         "note": "Trusted: the harness's apply observer (wraps store.Config.CommandApplier), SimNet, and response identity by pointer (the store hands the applier's response object to the waiting proposal).",
         "design_ref": "7/C22", "assumptions": E4_ASSUME,
     },
+    "C23": {
+        "engine": "clustersim", "level": "exploration", "budget": {"quick": 25, "thorough": 600},
+        "title": "Only the current leader serves reads and proposals, and reads are linearizable",
+        "technique": "deterministic simulation of a 3-store raft cluster with writers (prewrite+commit of uniquely valued puts at increasing timestamps) and readers (ReadCommand at arbitrary stores incl. partitioned old leaders); necessary-condition oracle at every read, porcupine register check per key after the run",
+        "rule": "case = seeded timeline of writes, reads (with target store) and fault steps; distinct = distinct event-trace hash; non-trivial = at least one injected fault fired, one write was acknowledged and one read returned a value or not-found",
+        "level_text": "Seeded search over schedules, partitions and leader changes; oracles: (1) a read returns a commit version >= the largest version acknowledged before its invocation, (2) per-key porcupine check against a register (Unknown = inconclusive, counted), (3) a store that serves a read or proposal was leader at some point during the call. Quantifies over all schedules: sampled.",
+        "note": "Trusted: harness-side timestamp oracle (one counter, so acknowledged-before implies smaller version), response-origin check that keeps C22's wrong-response defect from being charged to C23 (such outcomes are treated as unknown and counted in probes.c22_wrong_response_met).",
+        "design_ref": "7/C23", "assumptions": E4_ASSUME,
+    },
 }
